@@ -401,6 +401,7 @@ pub fn build(quick: bool) -> Check {
             Box::new(Handshakes { kinds: (0..KINDS.len()).step_by(if quick { 97 } else { 1 }).collect(), msgs: vec![vec![], b"denied #1".to_vec(), "caf\u{e9} \u{fc}ber".as_bytes().to_vec(), vec![b'm'; 600], (0..5000).map(|i| b'A' + (i % 26) as u8).collect(), vec![b'z'; 70_000]] }),
             Box::new(ReportedThenFailed { kinds: (0..KINDS.len()).step_by(if quick { 53 } else { 7 }).collect(), msgs: vec![vec![], b"denied".to_vec(), vec![b'm'; 600], vec![b'L'; 70_000]] }),
             Box::new(AtEverySequenceId::new(quick)),
+            Box::new(super::c18::TlsErrors::new(quick)),
             Box::new(Tables),
             Box::new(super::aftermath::Aftermath { prop: "C13" }),
         ],
